@@ -31,7 +31,7 @@ def check(case):
         return {"fails": [], "nontrivial": False, "margins": {}, "hist": ["skipped/not-tokamak"]}
     orth = bool(side["mesh_options"].get("orthogonal", True))
     g = int(side["mesh_options"].get("y_boundary_guards", 0))
-    wall_in = families.wall_polygon(desc["eq"].get("wall", {"kind": "rect"}), desc["eq"].get("box", [1.0, 2.0, -0.7, 0.7]))
+    wall_in = families.g_wall(desc["eq"])
     wall = families.anticlockwise(wall_in)
     closed = wall + [wall[0]]
     cref = gridcheck.CaseRef(desc)
@@ -58,6 +58,8 @@ def check(case):
             fail("C11/closed_wall-not-anticlockwise", {})
     hist.append("wall/%s/%s/%d-vertices" % (desc["eq"].get("wall", {}).get("kind", "rect"), "cw-input" if desc["eq"].get("wall", {}).get("clockwise") else "acw-input", len(wall)))
 
+    ps = side.get("psi_sep") or [0.0]
+    sep_spread = abs(ps[0] - ps[-1]) if side.get("double_null_type") == "connected" else 0.0
     # ---- targets on the wall ------------------------------------------------------------
     slanted = False
     for rid, reg in side["regions"].items():
@@ -85,7 +87,10 @@ def check(case):
                     if orth:
                         if i != sep_index:
                             continue
-                        tol = 1e-4
+                        # a connected double null is gridded with one separatrix value for both
+                        # X-points (documented in describeDoubleNull): the leg found from the other
+                        # X-point is pulled onto that surface, off its wall point by dpsi/|grad psi|
+                        tol = 1e-4 + 2.0 * sep_spread / max(gpsi, 1e-300)
                         margin("orth-separatrix-target-distance", d / tol)
                         if d > tol:
                             fail("C11/separatrix-target-off-wall/orth", {"region": reg["name"], "end": name, "distance": d, "tol": tol})
@@ -231,11 +236,13 @@ def run(run):
     gridcheck.run_corpus_property(run, "vf.props.c11", "check", descs)
     run.rule = RULE
     run.assumptions = [
-        "the wall handed to hypnotoad is star-shaped about the box centre (documented precondition of "
-        "calcPenaltyMask / inside_wall)",
+        "the centre of the psi array's box lies inside the wall (hypnotoad's reference point for inside/outside); "
+        "walls are convex rectangles / chamfered / tilted / subdivided with bumps, and non-convex ones with a "
+        "re-entrant baffle spike; no generated ray passes exactly through a wall vertex",
         "non-orthogonal target tolerance 1e-6 + 10 T_C01/|grad psi| + kappa h^2/2 (h = L/Nfine, kappa the curvature of "
         "the reference flux surface at the point: sagitta of the FineContour chord that is intersected with the wall); "
-        "orthogonal separatrix target 1e-4 (leg tracing: chord between integration steps)",
+        "orthogonal separatrix target 1e-4 (leg tracing: chord between integration steps), plus 2 |psi_sep1 - psi_sep2|/|grad psi| on "
+        "connected double nulls, which are gridded with one separatrix value for both X-points by design",
         "penalty_mask fraction = |outside end - wall crossing| / |p1 p2| as the property states (the shipped "
         "documentation words it as the fraction inside); a y-face numerically on the wall (target faces) may be "
         "classified either way",
